@@ -156,8 +156,15 @@ Definition chk_main (c : main_case) : Z :=
           else if negb (spec_all (frel_tree t) intended out) then 2     (* ... and is what the tree's float() returns for that value *)
           else if negb (forall2b sim_eqb intended rb) then 2
           else match export_all rb, out with
-               | Ok mo, Some io => if forall2b (out_eqb t) mo io then 0 else 2
-               | Error _, None => 0
+               | Ok mo, Some io =>
+                   if forall2b (out_eqb t) mo io then
+                     (* the exporter with COMPUTED float fields (Model/C17Float.v, round_dec): bit for bit *)
+                     match export_all_c round_dec rb with
+                     | Ok co => if forall2b (out_eqb []) co io then 0 else 2
+                     | Error _ => 2
+                     end
+                   else 2
+               | Error _, None => match export_all_c round_dec rb with Error _ => 0 | Ok _ => 2 end
                | _, _ => 2
                end
       end
@@ -174,7 +181,8 @@ Definition chk_both (c : main_case) : Z := chk_main c + 4 * chk_round c.
 (* ---- spec validation: nearest_double against fractions.Fraction / float() of CPython ---- *)
 Definition near_case := (Z * Z * dbl * bool)%type.
 Definition chk_near (c : near_case) : Z :=
-  let '(m, e, d, expect) := c in if Bool.eqb (nearest_double m e d) expect then 0 else 3.
+  let '(m, e, d, expect) := c in
+  if Bool.eqb (nearest_double m e d) expect && Bool.eqb (dbl_eqb (round_dbl m e) d) expect then 0 else 3.
 
 (* ---- spec validation: the name generator against f"Analysis{n}" ---- *)
 Definition chk_autoname (c : N * string) : Z :=
@@ -185,7 +193,7 @@ Definition chk_autoname (c : N * string) : Z :=
    exponent) and the double export_float returns (None: it raised).
    1: the double is not the nearest double of the prefixed value (the property);
    2: the Decimal differs, digit for digit, from the model's (Model/C17Float.v: unit_number_ctx None), or the double is not
-      a correct rounding of the model's Decimal. *)
+      the computed rounding (round_dec) of the model's Decimal. *)
 Definition fpath_case := (Z * Z * Z * (bool * Z * Z) * option dbl)%type.
 Definition chk_fpath (c : fpath_case) : Z :=
   let '(nm, ne, pe, (sg, co, ex), r) := c in
@@ -195,14 +203,14 @@ Definition chk_fpath (c : fpath_case) : Z :=
       if negb (nearest_double nm (ne + pe) d) then 1
       else
         let u := unit_number_ctx None (num_pfx nm ne pe) in
-        if Bool.eqb sg (dsign u) && (co =? Z.of_N (dcoef u)) && (ex =? dexp u) && nearest_double (dint u) (dexp u) d then 0 else 2
+        if Bool.eqb sg (dsign u) && (co =? Z.of_N (dcoef u)) && (ex =? dexp u) && dbl_eqb (round_dec u) d then 0 else 2
   end.
 (* diagnosis: the observed double is what a correctly rounding float() returns for the product evaluated in 28 digits *)
 Definition fpath_ctx28 (c : fpath_case) : Z :=
   let '(nm, ne, pe, _, r) := c in
   match r with
   | Some d => let u := unit_number_ctx (Some 28) (num_pfx nm ne pe) in
-              if nearest_double (dint u) (dexp u) d && negb (nearest_double nm (ne + pe) d) then 1 else 0
+              if negb (nearest_double nm (ne + pe) d) && nearest_double (dint u) (dexp u) d then 1 else 0
   | None => 0
   end.
 Definition chk_fpath_both (c : fpath_case) : Z := chk_fpath c + 4 * fpath_ctx28 c.
